@@ -687,6 +687,180 @@ Section ResumeSafe.
   Qed.
 End ResumeSafe.
 
+(* ==== after stop_all only stop_trial / delete_checkpoint calls happen ============== *)
+Definition is_end (e : event) : bool := match e with EStopAll => true | _ => false end.
+Definition is_final (e : event) : bool :=
+  match e with EStop _ => true | EDelete _ WStopAll => true | _ => false end.
+Definition NE (l : list event) : Prop := Forall (fun e => is_end e = false) l.
+Definition AF (l : list event) : Prop := Forall (fun e => is_final e = true) l.
+
+Lemma NE_clone i cl : NE (clone_ev i cl).
+Proof. destruct cl; repeat constructor. Qed.
+
+Lemma b_stop_NE c b i w : NE (snd (b_stop c b i w)).
+Proof. rewrite b_stop_events. destruct (delete_checkpoints c); repeat constructor. Qed.
+
+Lemma delete_list_Forall (P : event -> Prop) w : (forall i, P (EDelete i w)) ->
+  forall l b, Forall P (snd (delete_list b l w)).
+Proof.
+  intros HP. induction l as [|i l IH]; intros b; simpl; [constructor|].
+  specialize (IH {| ids := ids b; stat := stat b; deleted := i :: deleted b |}).
+  destruct (delete_list _ l w) as [b2 e2]. simpl in *. constructor; [apply HP|exact IH].
+Qed.
+
+Section EndSection.
+  Context {S R G : Type}.
+  Variable sch : scheduler S R G.
+  Variable c : cfg.
+  Local Arguments b_start : simpl never.
+  Local Arguments b_resume : simpl never.
+  Local Arguments new_trial_id : simpl never.
+
+  Lemma process_results_NE compl : forall rs s b done, NE (snd (process_results sch c s b done compl rs)).
+  Proof.
+    induction rs as [|[i r] rs IH]; intros s b done; simpl; [constructor|].
+    destruct (mem_Z i done); [apply IH|].
+    destruct (on_result sch s i r) as [[s1 d] cl].
+    destruct d.
+    - specialize (IH s1 b done). destruct (process_results sch c s1 b done compl rs) as [[[s2 b2] d2] evs].
+      simpl in *. constructor; [reflexivity|]. apply Forall_app. split; [apply NE_clone|exact IH].
+    - specialize (IH s1 (set_status b i Paused) (i :: done)).
+      destruct (process_results sch c s1 (set_status b i Paused) (i :: done) compl rs) as [[[s2 b2] d2] evs].
+      simpl in *. constructor; [reflexivity|]. apply Forall_app. split; [apply NE_clone|].
+      constructor; [reflexivity|exact IH].
+    - destruct (mem_Z i compl).
+      + specialize (IH s1 b (i :: done)). destruct (process_results sch c s1 b (i :: done) compl rs) as [[[s2 b2] d2] evs].
+        simpl in *. constructor; [reflexivity|]. apply Forall_app. split; [apply NE_clone|exact IH].
+      + pose proof (b_stop_NE c b i WStop) as Hs. destruct (b_stop c b i WStop) as [b' e].
+        specialize (IH s1 b' (i :: done)). destruct (process_results sch c s1 b' (i :: done) compl rs) as [[[s2 b2] d2] evs].
+        simpl in *. constructor; [reflexivity|]. apply Forall_app. split; [apply NE_clone|].
+        apply Forall_app. split; assumption.
+  Qed.
+
+  Lemma schedule_NE : forall gs s b run, NE (snd (schedule sch s b run gs)).
+  Proof.
+    induction gs as [|g gs IH]; intros s b run; [constructor|]. cbn [schedule].
+    destruct (suggest sch s (new_trial_id b) g) as [s1 sg]. destruct sg as [|j|i|].
+    - pose proof (b_start_events b None) as He. destruct (b_start b None) as [b1 e].
+      specialize (IH s1 b1 (new_trial_id b :: run)).
+      destruct (schedule sch s1 b1 (new_trial_id b :: run) gs) as [[[[[s2 b2] r2] ex] er] evs]. simpl in *.
+      subst e. constructor; [reflexivity|exact IH].
+    - pose proof (b_start_events b (Some j)) as He. destruct (b_start b (Some j)) as [b1 e].
+      specialize (IH s1 b1 (new_trial_id b :: run)).
+      destruct (schedule sch s1 b1 (new_trial_id b :: run) gs) as [[[[[s2 b2] r2] ex] er] evs]. simpl in *.
+      subst e. constructor; [reflexivity|]. constructor; [reflexivity|exact IH].
+    - destruct (b_resume b i) as [[b1 e]|] eqn:Eb.
+      + destruct (b_resume_spec _ _ _ _ Eb) as [-> _].
+        specialize (IH s1 b1 (i :: run)).
+        destruct (schedule sch s1 b1 (i :: run) gs) as [[[[[s2 b2] r2] ex] er] evs]. simpl in *.
+        constructor; [reflexivity|exact IH].
+      + simpl. repeat constructor.
+    - simpl. constructor.
+  Qed.
+
+  Lemma removable_events_NE : forall l b, NE (snd (removable_events b l)).
+  Proof.
+    induction l as [|i l IH]; intros b; simpl; [constructor|].
+    specialize (IH {| ids := ids b; stat := stat b; deleted := i :: deleted b |}).
+    destruct (removable_events _ l) as [b2 e2]. simpl in *. repeat (constructor; [reflexivity|]). exact IH.
+  Qed.
+
+  Lemma loop_end_NE s b choice : NE (snd (loop_end sch c s b choice)).
+  Proof.
+    unfold loop_end.
+    assert (forall b l, NE (snd (delete_list b l WSpec))) as Hd
+      by (intros; apply delete_list_Forall; reflexivity).
+    destruct (remove_callback c).
+    - destruct (removables sch s) as [s' l]. pose proof (removable_events_NE l b) as H1.
+      destruct (removable_events b l) as [b' e]. destruct (speculative c); [|exact H1].
+      specialize (Hd b' (filter (spec_ok sch s') choice)).
+      destruct (delete_list b' _ WSpec) as [b2 e2]. simpl in *. apply Forall_app. split; assumption.
+    - destruct (speculative c); [|constructor].
+      specialize (Hd b (filter (spec_ok sch s) choice)). destruct (delete_list b _ WSpec) as [b2 e2]. exact Hd.
+  Qed.
+
+  Lemma iteration_NE st it : NE (snd (fst (iteration sch c st it))).
+  Proof.
+    unfold iteration.
+    set (rs := filter _ (reports it)). set (compl := filter _ (completed it)). set (fl := filter _ (failed it)).
+    pose proof (process_results_NE compl rs (sst st) (mark_failed (mark_completed (be st) compl) fl) []) as H1.
+    destruct (process_results sch c (sst st) _ [] compl rs) as [[[s1 b1] done] ev1]. simpl in H1.
+    set (s1' := fold_left (on_error sch) _ s1).
+    destruct (exhausted st).
+    - pose proof (loop_end_NE s1' b1 (spec_choice it)) as H3.
+      destruct (loop_end sch c s1' b1 (spec_choice it)) as [[s3 b3] ev3]. simpl in *.
+      apply Forall_app. split; assumption.
+    - match goal with |- context [schedule sch s1' b1 ?r (sugg it)] => pose proof (schedule_NE (sugg it) s1' b1 r) as H2;
+        destruct (schedule sch s1' b1 r (sugg it)) as [[[[[s2 b2] run2] ex] er] ev2] end.
+      simpl in H2. destruct er; simpl.
+      + apply Forall_app. split; assumption.
+      + pose proof (loop_end_NE s2 b2 (spec_choice it)) as H3.
+        destruct (loop_end sch c s2 b2 (spec_choice it)) as [[s3 b3] ev3]. simpl in *.
+        apply Forall_app. split; [assumption|]. apply Forall_app. split; assumption.
+  Qed.
+
+  Lemma stop_all_AF b : AF (snd (b_stop_all c b)).
+  Proof.
+    unfold b_stop_all.
+    assert (forall st0 l b, AF (snd (stop_running c b st0 l))) as H1.
+    { intros st0 l. induction l as [|i l IH]; intros b0; simpl; [constructor|].
+      destruct (status_of st0 i) as [[]|]; try apply IH.
+      pose proof (b_stop_events c b0 i WStopAll) as Hs.
+      destruct (b_stop c b0 i WStopAll) as [b1 e1]. specialize (IH b1).
+      destruct (stop_running c b1 st0 l) as [b2 e2]. simpl in *. apply Forall_app. split; [|exact IH].
+      rewrite Hs. destruct (delete_checkpoints c); repeat constructor. }
+    specialize (H1 (stat b) (ids b) b). destruct (stop_running c b (stat b) (ids b)) as [b1 e1]. simpl in H1.
+    destruct (delete_checkpoints c); [|exact H1].
+    pose proof (delete_list_Forall (fun e => is_final e = true) WStopAll (fun _ => eq_refl) (ids b) b1) as H2.
+    destruct (delete_list b1 (ids b) WStopAll) as [b2 e2]. simpl in *. apply Forall_app. split; assumption.
+  Qed.
+
+  (* the trace is  body ++ EStopAll :: tail  with no EStopAll in body and only final calls in tail *)
+  Lemma run_shape : forall its st, exists body tail,
+    run sch c st its = body ++ EStopAll :: tail /\ NE body /\ AF tail.
+  Proof.
+    induction its as [|it its IH]; intros st; cbn [run].
+    - exists [], (snd (b_stop_all c (be st))). split; [reflexivity|]. split; [constructor|apply stop_all_AF].
+    - pose proof (iteration_NE st it) as H1. destruct (iteration sch c st it) as [[st' ev] er]. simpl in H1.
+      destruct er.
+      + exists ev, (snd (b_stop_all c (be st'))). split; [reflexivity|]. split; [exact H1|apply stop_all_AF].
+      + destruct (IH st') as [body [tail [E [H2 H3]]]]. exists (ev ++ body), tail.
+        split; [rewrite E; now rewrite app_assoc|]. split; [apply Forall_app; split; assumption|exact H3].
+  Qed.
+
+  Lemma NE_split body tail pre post : NE body -> body ++ EStopAll :: tail = pre ++ EStopAll :: post ->
+    NE pre -> pre = body /\ post = tail.
+  Proof.
+    revert pre. induction body as [|e body IH]; intros pre Hb E Hp.
+    - destruct pre as [|e' pre]; simpl in E; [injection E as <-; auto|].
+      injection E as <- _. inversion Hp; subst. discriminate.
+    - destruct pre as [|e' pre]; simpl in E.
+      + injection E as -> _. inversion Hb; subst. discriminate.
+      + injection E as <- E. inversion Hb; subst. inversion Hp; subst.
+        destruct (IH pre H2 E H4) as [-> ->]. auto.
+  Qed.
+
+  Theorem after_stop_all_only_final : forall st its pre post,
+    run sch c st its = pre ++ EStopAll :: post ->
+    AF post /\ NE pre.
+  Proof.
+    intros st its pre post E. destruct (run_shape its st) as [body [tail [E' [H1 H2]]]].
+    rewrite E' in E.
+    (* the first EStopAll of the trace is the one of [body ++ EStopAll :: tail] *)
+    assert (forall body pre, NE body -> body ++ EStopAll :: tail = pre ++ EStopAll :: post ->
+              (pre = body /\ post = tail) \/ exists mid, pre = body ++ EStopAll :: mid /\ tail = mid ++ EStopAll :: post) as K.
+    { induction body0 as [|e body0 IH]; intros pre0 Hb E0.
+      - destruct pre0 as [|e' pre0]; simpl in E0; [injection E0 as <-; auto|].
+        injection E0 as <- E0. right. exists pre0. auto.
+      - destruct pre0 as [|e' pre0]; simpl in E0.
+        + injection E0 as -> _. inversion Hb; subst. discriminate.
+        + injection E0 as <- E0. inversion Hb; subst. destruct (IH pre0 H4 E0) as [[-> ->]|[mid [-> ->]]]; [auto|].
+          right. exists mid. auto. }
+    destruct (K body pre H1 E) as [[-> ->]|[mid [-> Ht]]]; [auto|].
+    exfalso. rewrite Ht in H2. apply Forall_app in H2 as [_ H2]. inversion H2; subst. discriminate.
+  Qed.
+End EndSection.
+
 (* ---- instance: promotion-type book-keeping ---------------------------------------- *)
 Lemma mem_Z_In i l : mem_Z i l = true <-> In i l.
 Proof.
